@@ -6,9 +6,9 @@ open Scenic.Expr
 /-- tables of src/scenic/core/distributions.py (makeOperatorHandler, OperatorDistribution.sampleGiven) and
     src/scenic/core/vectors.py (vectorOperator decorators) -/
 def exprTables : Tables :=
-  { simp := [⟨.add, false, 0⟩, ⟨.add, true, 0⟩, ⟨.sub, false, 0⟩, ⟨.mul, false, 1⟩, ⟨.mul, true, 1⟩, ⟨.truediv, false, 1⟩, ⟨.pow, false, 1⟩],
+  { simp := [⟨.add, false, 0⟩, ⟨.add, true, 0⟩, ⟨.sub, false, 0⟩, ⟨.sub, true, 0⟩, ⟨.mul, false, 1⟩, ⟨.mul, true, 1⟩, ⟨.truediv, false, 1⟩, ⟨.pow, false, 1⟩],
     vecOps := [(.add, false, true), (.add, true, true), (.sub, false, true), (.sub, true, false), (.mul, false, false), (.truediv, false, false)],
-    guardMissingAttr := false,
+    pythonDispatch := false,
     vecHandlerAcceptsSeq := false }
 
 /-- `X * globalOrientation -> X` style simplifications on Orientation-typed values: (operator, reflected) -/
@@ -22,6 +22,8 @@ def reversibleOperators : List String := ["__add__", "__radd__", "__sub__", "__r
 def vectorPlainDunders : List String := ["__rmul__"]
 /-- named Vector methods with their lifting decorator -/
 def vectorNamedOps : List (String × String) := [("applyRotation", "vectorOperator"), ("sphericalCoordinates", "vectorOperator"), ("rotatedBy", "zeroPreservingVectorOperator"), ("offsetRotated", "vectorOperator"), ("offsetLocally", "vectorOperator"), ("offsetRadially", "vectorOperator"), ("distanceTo", "scalarOperator"), ("angleTo", "scalarOperator"), ("azimuthTo", "scalarOperator"), ("altitudeTo", "scalarOperator"), ("angleWith", "scalarOperator"), ("norm", "scalarOperator"), ("dot", "scalarOperator"), ("cross", "vectorOperator"), ("normalized", "vectorOperator")]
+/-- the vector operators wrap tuple/list operands with toDistribution (the model does not cover such operands) -/
+def vectorOperatorsWrapOperands : Bool := false
 /-- functions of geometry.py declared `monotonicDistributionFunction` -/
 def monotoneDeclared : List String := ["hypot", "max", "min"]
 
